@@ -188,3 +188,19 @@ contract(TG + ".validate", serves=["C15", "C12"], spec_module="spec.textgrids",
          configs={"k": [0, 1, 2], "reportingMode": ["silence", "warning", "bogus"]},
          inputs=lambda S, cfg: dict(self=loose_textgrid(S, "self", cfg["k"]), reportingMode=cfg["reportingMode"]),
          spec="spec.textgrids.Textgrid_validate", frame=["self"])
+
+
+# ---- C13: Textgrid.new() is a deep, equal copy (nothing of the original is shared with it)
+contract(TG + ".new", serves=["C13", "C12"], spec_module="spec.textgrids",
+         configs={"k": [0, 1, 2]},
+         inputs=lambda S, cfg: dict(self=valid_textgrid(S, "self", cfg["k"])),
+         frame=["self"],
+         ensures=[("same-content", "result.minTimestamp == self.minTimestamp and result.maxTimestamp == self.maxTimestamp and "
+                                  "forall(range(len(self.tierNames)), lambda i: result.tiers[i].entries == self.tiers[i].entries "
+                                  "and result.tiers[i].name == self.tiers[i].name "
+                                  "and result.tiers[i].minTimestamp == self.tiers[i].minTimestamp "
+                                  "and result.tiers[i].maxTimestamp == self.tiers[i].maxTimestamp)"),
+                  ("same-names", "result.tierNames == self.tierNames"),
+                  ("independent", "result is not self and forall(range(len(self.tierNames)), lambda i: "
+                                  "result.tiers[i] is not self.tiers[i])")])
+
